@@ -61,3 +61,72 @@ package wire
 //@   inline
 //@ contract (*Value).GetList
 //@   inline
+
+// ---------------------------------------------------------------------------
+// Wire-value equality (value_equals.go, C14): ValuesAreEqual is the structural
+// comparison of two wire values: same type and, per type, scalar equality
+// (IEEE == on doubles), byte-wise equality of binaries, and the relation of the
+// container kind. Structs: on duplicate-free field ids, same number of fields
+// and every left field has a right field with the same id and an equal value.
+// Lists: same element type and size, pointwise equal in order. Sets and maps
+// go through ForEach closures over interface-keyed Go maps: their relation
+// symbols are assumed (outside reach).
+
+//@ spec wirelist.smt2
+//@ define wvalueDef(a, b) = a.typ == b.typ && ((a.typ == 2 && ((a.tnumber != 0) <==> (b.tnumber != 0))) || (a.typ == 3 && int8(a.tnumber) == int8(b.tnumber)) || (a.typ == 4 && fpeq(a.tnumber, b.tnumber)) || (a.typ == 6 && int16(a.tnumber) == int16(b.tnumber)) || (a.typ == 8 && int32(a.tnumber) == int32(b.tnumber)) || (a.typ == 10 && int64(a.tnumber) == int64(b.tnumber)) || (a.typ == 11 && eqsym(binary, a.tbinary, b.tbinary)) || (a.typ == 12 && eqsym(wstruct, a.tstruct, b.tstruct)) || (a.typ == 13 && eqsym(wmap, a.tcoll, b.tcoll)) || (a.typ == 14 && eqsym(wset, a.tcoll, b.tcoll)) || (a.typ == 15 && eqsym(wlist, a.tcoll, b.tcoll)))
+//@ axiom def_wvalue(a, b) = eqsym(wvalue, a, b) <==> wvalueDef(a, b)
+//@ define wlistDef(a, b) = vlType(a) == vlType(b) && vlSize(a) == vlSize(b) && forall(i, 0, vlSize(a), eqsym(wvalue, ufun(vlAt, Value, a, i), ufun(vlAt, Value, b, i)))
+//@ axiom def_wlist(a, b) = eqsym(wlist, a, b) <==> wlistDef(a, b)
+
+//@ contract ValuesAreEqual
+//@   props C14
+//@   pure
+//@   use def_wvalue(left, right)
+//@   ensures(def) result == wvalueDef(left, right)
+//@   ensures(sym) result == eqsym(wvalue, left, right)
+
+//@ contract (Struct).fieldMap
+//@   props C14
+//@   nopanic
+//@   modifies nothing
+//@   loop 1: invariant m != nil && fresh(m) && ridx >= -1 && ridx < len(s.Fields)
+//@   loop 1: invariant(keysin) forall(k, 0, ridx + 1, has(m, s.Fields[k].ID))
+//@   loop 1: invariant(keysfrom) forall(id, int16, has(m, id) ==> exists(k, 0, ridx + 1, s.Fields[k].ID == id))
+//@   ensures(fresh) result != nil && fresh(result)
+//@   ensures(keysin) forall(k, 0, len(s.Fields), has(result, s.Fields[k].ID))
+//@   ensures(keysfrom) forall(id, int16, has(result, id) ==> exists(k, 0, len(s.Fields), s.Fields[k].ID == id))
+
+//@ contract StructsAreEqual
+//@   props C14
+//@   pure
+//@   loop 1: invariant(matched) forall(id, int16, visited(id) ==> has(rightFields, id) && eqsym(wvalue, leftFields[id], rightFields[id]))
+//@   ensures(len) result ==> len(left.Fields) == len(right.Fields)
+//@   ensures(ids) result ==> forall(k, 0, len(left.Fields), exists(j, 0, len(right.Fields), right.Fields[j].ID == left.Fields[k].ID))
+//@   assumed(sym) result == eqsym(wstruct, left, right)
+
+// ValueListToSlice / MapItemListToSlice collect through a ForEach closure: assumed
+// to return the elements of the abstract list in order.
+//@ contract ValueListToSlice
+//@   trusted
+//@   modifies nothing
+//@   ensures len(result) == vlSize(l) && forall(i, 0, vlSize(l), result[i] == ufun(vlAt, Value, l, i))
+
+//@ contract ListsAreEqual
+//@   props C14
+//@   nopanic
+//@   pure
+//@   use def_wlist(left, right)
+//@   loop 1: invariant ridx >= -1 && ridx < len(leftItems) && len(leftItems) == len(rightItems)
+//@   loop 1: invariant(prefix) forall(j, 0, ridx + 1, eqsym(wvalue, leftItems[j], rightItems[j]))
+//@   ensures(def) result == wlistDef(left, right)
+//@   ensures(sym) result == eqsym(wlist, left, right)
+
+// Sets and maps: closures over map[interface{}]... (outside reach): relation symbols assumed.
+//@ contract SetsAreEqual
+//@   trusted
+//@   modifies nothing
+//@   ensures result == eqsym(wset, left, right)
+//@ contract MapsAreEqual
+//@   trusted
+//@   modifies nothing
+//@   ensures result == eqsym(wmap, left, right)
